@@ -18,10 +18,9 @@ import ChfVerif.Gen.Schema
     a universal tag of their own, OPTIONAL members nil-able and not confusable with a later member — every
     parameter set in `rtParams` and every canonical value (`Canon`: what the decoder produces, e.g. absent
     OPTIONAL members are nil, the unselected alternatives of a CHOICE hold zero values), if `marshal` returns
-    octets then `unmarshal` returns the value.  `C05_schema`: 194 of the 195 regenerated schema types are in
-    `rtTy` (decide +kernel), among them the CHF's own record `CHFRecord`; the one left out is IPBinaryAddress
-    (an untagged CHOICE alternative that is itself a CHOICE).  SET types and EXPLICIT tags on non-primitive
-    members are outside `rtTy` / `rtParams` too — the schema uses neither.
+    octets then `unmarshal` returns the value.  `C05_schema`: all 195 regenerated schema types are in `rtTy`
+    (decide +kernel), among them the CHF's own record `CHFRecord`.  SET types and EXPLICIT tags on non-primitive
+    members are outside `rtTy` / `rtParams` — the schema uses neither.
   * for primitives additionally every tagging incl. EXPLICIT (C05_integer … C05_null), the header parser on
     its own (C05_header), Value wrappers of primitives under EXPLICIT tags (C05_wrapped_*).
   For what the theorem leaves out, `RoundTrip` is decided per run by the correspondence (model =
@@ -253,8 +252,15 @@ theorem C05 (t : Ty) (p : Params) (v : Val) (ht : rtTy t = true) (hp : rtParams 
   (roundtrip_all.1 t p v p b rfl hp ht hv hm hl).1
 
 open Chf.Ber in
-/-- all regenerated schema types but one are covered -/
-theorem C05_schema : (Gen.schema.filter (fun e => !rtTy e.2)).map (·.1) = ["IPBinaryAddress"] := by decide +kernel
+/-- every one of the regenerated schema types is covered -/
+theorem C05_schema : Gen.schema.all (fun e => rtTy e.2) = true := by decide +kernel
+
+open Chf.Ber in
+/-- … so every canonical value of every CDR schema type that marshals round-trips, under any parameters in `rtParams` -/
+theorem C05_every_schema_type (name : String) (t : Ty) (hmem : (name, t) ∈ Gen.schema) (p : Params) (v : Val)
+    (hp : rtParams p = true) (hv : Canon t v) (b : Bytes) (hm : marshal t p v = .ok b)
+    (hl : b.length < 4611686018427387904) : unmarshal t p b = .ok v :=
+  C05 t p v (by simpa using List.all_eq_true.mp C05_schema (name, t) hmem) hp hv b hm hl
 
 open Chf.Ber in
 /-- in particular the record the CHF writes, with the parameters the CHF uses ("explicit,choice") -/
